@@ -1,5 +1,7 @@
 package route
 
+import "strings"
+
 // Routes stores a list of routes usually for a single host.
 type Routes []*Route
 
@@ -14,6 +16,18 @@ func (rt Routes) find(path string) *Route {
 }
 
 // sort by path in reverse order (most to least specific)
-func (rt Routes) Len() int           { return len(rt) }
-func (rt Routes) Swap(i, j int)      { rt[i], rt[j] = rt[j], rt[i] }
-func (rt Routes) Less(i, j int) bool { return rt[j].Path < rt[i].Path }
+//
+// The paths are compared case-insensitively first so that the
+// order is also correct for the iprefix matcher: of two paths
+// which match the same request case-insensitively the longer
+// one must come first. For paths which differ only in case
+// the previous case-sensitive order is kept.
+func (rt Routes) Len() int      { return len(rt) }
+func (rt Routes) Swap(i, j int) { rt[i], rt[j] = rt[j], rt[i] }
+func (rt Routes) Less(i, j int) bool {
+	li, lj := strings.ToLower(rt[i].Path), strings.ToLower(rt[j].Path)
+	if li != lj {
+		return lj < li
+	}
+	return rt[j].Path < rt[i].Path
+}
